@@ -33,13 +33,26 @@ def features(beh):
     feats = set()
     prev = 'Init'
     prev2 = '-'
-    for st in beh[1:]:
+    for idx, st in enumerate(beh[1:]):
         a = st['last']
         try:
             state = {k: core.tlaval.state_var(st['body'], k) for k in ('meta', 'up', 'pend', 'taint', 'role')}
         except Exception:
             state = None
         kind = a['a']
+        if kind == 'Fetch':
+            # how the replication response was packed and what it did to the commit point: backlog of the
+            # follower before the round trip, records delivered, whether the response was cut, HW moved
+            try:
+                pre, post = beh[idx]['body'], st['body']
+                lg0, lg1 = core.tlaval.state_var(pre, 'log'), core.tlaval.state_var(post, 'log')
+                hw0, hw1 = core.tlaval.state_var(pre, 'hw'), core.tlaval.state_var(post, 'hw')
+                ld = core.tlaval.state_var(pre, 'meta')['leader']
+                back = len(lg0[ld]) - len(lg0[a['f']])
+                got = len(lg1[a['f']]) - len(lg0[a['f']])
+                feats.add(('x', 'fetch', min(back, 4), got, hw1[ld] > hw0[ld], a.get('late')))
+            except Exception:
+                pass
         det = ''
         if state:
             meta = state['meta']
@@ -74,7 +87,8 @@ def select(sims, n, rng):
     while pool and len(chosen) < n:
         best, gain = None, -1
         for i, (b, f) in enumerate(pool):
-            g = len(f - covered)
+            # 'x' features (rare situations looked for on purpose) weigh more than action n-grams
+            g = sum(8 if x[0] == 'x' else 1 for x in f - covered)
             if g > gain:
                 best, gain = i, g
         if gain <= 0:
@@ -157,6 +171,25 @@ def probe_stimuli(rep, first_id=9001):
     return out
 
 
+# defective variants of single decisions of the MODEL (Mutant_Replication_<name>.cfg): TLC's counterexample of
+# each is a directed scenario in which exactly that decision matters; the real code must pass it
+MODEL_MUTANTS = ['OffsetsNone', 'OffsetsAhead']
+
+
+def mutant_stimuli(rep, first_id=9301):
+    out = []
+    for i, name in enumerate(MODEL_MUTANTS):
+        names, beh = core.tlc_counterexample('MC_Replication.tla', 'Mutant_Replication_%s.cfg' % name, workers=1)
+        rep.cov.setdefault('model_mutants', []).append({'variant': name, 'counterexample_steps': len(beh) - 1 if beh else 0})
+        if not beh:
+            raise core.Inconclusive('model variant %s has no counterexample any more' % name)
+        st = to_stimulus(beh, first_id + i)
+        if st['steps'][-1]['a'] == 'Fetch':
+            st['steps'].append(dict(st['steps'][-1]))
+        out.append(st)
+    return out
+
+
 def run(rep, tier, seed, replay, prop, names, relevant, rule, rf1=False, mc_quick='MC_Replication.cfg'):
     if replay:
         behaviours = replay['replay']['behaviours']
@@ -176,7 +209,7 @@ def run(rep, tier, seed, replay, prop, names, relevant, rule, rf1=False, mc_quic
     for cfg in designs:
         res = core.tlc_check('MC_Replication.tla', cfg, timeout=3 * 3600, coverage=False)
         rep.add_design(cfg, res)
-    behaviours = probe_stimuli(rep)
+    behaviours = probe_stimuli(rep) + mutant_stimuli(rep)
     import json
     for fn in ('replication_regressions.json', 'replication_defects.json', 'replication_directed.json'):
         # fixed stimuli: histories that exposed repaired defects, and one TLC counterexample per open
@@ -227,6 +260,20 @@ def run(rep, tier, seed, replay, prop, names, relevant, rule, rf1=False, mc_quic
             tr2 = judge(rep, b2, trace, prop, names)
         behaviours += b2
         lines += tr2['validated']
+    if True:
+        # records of two sizes: a replication response is packed by size, the record that does not
+        # fit leads the next response (WideEvery = 2: every second message takes two units)
+        res = core.tlc_check('MC_Replication.tla', 'MC_Replication_sizes.cfg', timeout=1800)
+        rep.add_design('MC_Replication_sizes.cfg', res)
+        pool = core.tlc_simulate('MC_Replication.tla', 'Sim_Replication_sizes.cfg', 500 if tier == 'quick' else 5000, 18, seed + 3)
+        sims, _ = select(pool, 40 if tier == 'quick' else 400, rng)
+        b3 = [to_stimulus(b, 8000 + i, {'minISR': 2, 'fetchMax': 2, 'rf': 3, 'wideEvery': 2})
+              for i, b in enumerate(sims) if len(b) > 1]
+        with core.scratch(prop.lower()) as d:
+            trace = execute(b3, d, timeout=3000)
+            tr3 = judge(rep, b3, trace, prop, names, 'Trace_Replication_sizes.cfg')
+        behaviours += b3
+        lines += tr3['validated']
     rep.cov['traces_validated_against_impl'] = len(behaviours)
     rep.cov['trace_lines_validated'] = lines
     rep.cov['evaluations'] = len(behaviours)
